@@ -44,7 +44,34 @@ let parse_op toks = match toks with
   | _ -> failwith "op"
 
 let split_on s sep = List.map String.trim (String.split_on_char sep s)
+(* wire mode:  "W <npeers> <tok> <tok> ..."  tok = "k:<rec><pend><msgs>,k:..." (output of harness/c11s.cc):
+   the extracted acceptor wire_accept is run on each peer's observation sequence *)
+let wire_line line =
+  match split_ws line with
+  | _ :: np :: toks ->
+    let np = int_of_string np in
+    let bad = ref [] in
+    for k = 0 to np - 1 do
+      let obs = ref [] and closed = ref false in
+      List.iter (fun tok ->
+        List.iter (fun part ->
+          match String.split_on_char ':' part with
+          | [kk; v] when int_of_string kk = k && not !closed ->
+            if v = "x" then closed := true
+            else begin
+              let r = v.[0] = '1' and p = v.[1] = '1' in
+              let ms = ref [] in
+              String.iteri (fun i ch -> if i >= 2 then (if ch = 'u' then ms := true :: !ms else if ch = 'c' then ms := false :: !ms)) v;
+              obs := ((r, p), List.rev !ms) :: !obs
+            end
+          | _ -> ()) (String.split_on_char ',' tok)) toks;
+      if not (wire_accept false (List.rev !obs)) then bad := k :: !bad
+    done;
+    if !bad = [] then "ACCEPT" else "REJECT peers " ^ String.concat "," (List.map string_of_int (List.rev !bad))
+  | _ -> "BADCASE"
+
 let () = each_line (fun line ->
+  if String.length line > 2 && String.sub line 0 2 = "W " then wire_line line else
   match split_on line ';' with
   | [] -> "BADCASE"
   | hdr :: ops ->
